@@ -53,3 +53,70 @@ Print Assumptions C11_classes_sound.
 Theorem C11_classes_none : forall x, c11_classes x = [] -> api_preservedb x = false -> ~ ApiPreserved (relax_obs x).
 Proof. exact c11_classes_none. Qed.
 Print Assumptions C11_classes_none.
+
+(* F-C11a, on the summaries of a real pair (seed package "F-C11a", confirmed on the real code in
+   every run):  original  `export function f1(a: () => string = <arrow>, b: number): void {}`
+                emitted   `export function f1(a: () => string | undefined, b: number): void {}`
+   ids: 2 f1, 3 `()=>string`, 4 a, 5 number, 6 b, 7 void, 8 `()=>string|undefined` *)
+Definition c11_paren_witness : c11_obs :=
+  let t (i : N) (p : bool) := {| ty_cls := TyOther; ty_id := i; ty_strip := None; ty_paren := p |} in
+  let none := {| ty_cls := TyNone; ty_id := 0; ty_strip := None; ty_paren := false |} in
+  let arrow := FnSum FArrow [] (t 9 false) false false (BExpr ELeaf) false 0 0 false in
+  let orig := IFn ExNamed 2 false
+                (FnSum FDecl [Param PIdent (t 3 true) false (EFun arrow) false false None 4;
+                              Param PIdent (t 5 false) false ENone false false None 6]
+                       (t 7 false) false false BEmpty false 0 0 false) in
+  let emit := IFn ExNamed 2 false
+                (FnSum FDecl [Param PIdent (t 8 true) false ENone false false None 4;
+                              Param PIdent (t 5 false) false ENone false false None 6]
+                       (t 7 false) false false BEmpty false 0 0 false) in
+  {| o_entry := true; o_orig := {| m_ambient := false; m_items := [orig] |};
+     o_emit := {| m_ambient := false; m_items := [emit] |};
+     o_orig_exports := [2]; o_emit_exports := [2]; o_exports_known := true; o_must_drop := [] |}.
+
+Theorem C11_paren_refuted : ~ ApiPreserved c11_paren_witness /\ c11_classes c11_paren_witness = [1101].
+Proof.
+  split; [|vm_compute; reflexivity].
+  intro H. apply api_preservedb_correct in H. vm_compute in H. discriminate.
+Qed.
+Print Assumptions C11_paren_refuted.
+
+(* non-vacuity: a pair that exercises dropping, the optional/default normalisation, a TS-private
+   member, a parameter property and an expando namespace, and satisfies the statement *)
+Example C11_nonvacuous :
+  let t (i : N) (s : option N) := {| ty_cls := TyOther; ty_id := i; ty_strip := s; ty_paren := false |} in
+  let any := {| ty_cls := TyAny; ty_id := 20; ty_strip := None; ty_paren := false |} in
+  let none := {| ty_cls := TyNone; ty_id := 0; ty_strip := None; ty_paren := false |} in
+  let key (i : N) := {| k_cls := KIdent; k_id := i |} in
+  (* function f(a: T = e, b: U, c?: V): R { ... }   private helper   class C { constructor(public p: T) {}  private m(): void {} } *)
+  let orig :=
+    [ IFn ExNamed 2 false (FnSum FDecl [Param PIdent (t 3 None) false ELeaf false false None 4;
+                                       Param PIdent (t 5 None) false ENone false false None 6;
+                                       Param PIdent (t 7 None) true ENone false false None 8]
+                                 (t 9 None) false false BOther false 0 0 false);
+      IFn ExNone 10 false (FnSum FDecl [] none false false BOther false 0 0 false);
+      IClass ExNamed 11 false
+        {| c_decos := false; c_super := SNone; c_super_id := 0; c_implements := []; c_tpc := 0; c_tpi := 0;
+           c_abstract := false;
+           c_members := [ MCtor AccPublic (FnSum FCtor [Param PIdent (t 3 None) false ENone false false (Some (AccPublic, false)) 12]
+                                                 none false false BOther false 0 0 false);
+                          MMethod (key 13) AccPrivate false false false
+                                  (FnSum FMethod [] (t 9 None) false false BOther false 0 0 false) ] |} ] in
+  let emit :=
+    [ IFn ExNamed 2 false (FnSum FDecl [Param PIdent (t 14 (Some 3)) false ENone false false None 4;
+                                       Param PIdent (t 5 None) false ENone false false None 6;
+                                       Param PIdent (t 7 None) true ENone false false None 8]
+                                 (t 9 None) false false BRet false 0 0 false);
+      IClass ExNamed 11 false
+        {| c_decos := false; c_super := SNone; c_super_id := 0; c_implements := []; c_tpc := 0; c_tpi := 0;
+           c_abstract := false;
+           c_members := [ MProp (key 12) AccPublic false (t 3 None) true false false false false false ENone false;
+                          MCtor AccPublic (FnSum FCtor [Param PIdent (t 3 None) false ENone false false None 12]
+                                                 none false false BEmpty false 0 0 false);
+                          MProp (key 13) AccPrivate false any true false false false false false ENone false ] |};
+      INamespace ExNamed 2 false [IVar ExNamed false 0 [{| v_name := 15; v_pat := PIdent; v_ty := none; v_init := ELeaf; v_definite := false |}]] ] in
+  api_preservedb {| o_entry := true; o_orig := {| m_ambient := false; m_items := orig |};
+                    o_emit := {| m_ambient := false; m_items := emit |};
+                    o_orig_exports := [2; 11]; o_emit_exports := [11; 2]; o_exports_known := true;
+                    o_must_drop := [10] |} = true.
+Proof. vm_compute. reflexivity. Qed.
